@@ -1760,6 +1760,46 @@ impl History {
         self.corner("shared-turn-holder-silent");
     }
 
+    /// Directed scenario: the broker's topic aliases towards an MQTT 5 subscriber are allocated on the first forward
+    /// of a concrete filter, freed when it is unsubscribed and handed out again; retained messages exist on all the
+    /// topics, so every new subscription starts with a replay (which may be sent with the alias only).
+    pub fn alias_reuse_after_unsubscribe(&mut self) {
+        crate::watch::set_history(self.replay_json());
+        self.actors[0].alias_max = *self.rng.pick(&[1u16, 2, 2, 10]);
+        self.actors[0].persistent = false;
+        self.connect(0, None);
+        self.connect(1, None);
+        self.step(Step::Turn);
+        let topics = ["a", "b", "a/b", "a/c"];
+        for t in topics {
+            self.publish(1, t, 1, true, false, None, true);
+        }
+        self.step(Step::Turn);
+        self.corner("broker-alias-reuse");
+        for round in 0..10 {
+            if self.done() {
+                return;
+            }
+            let t = (*self.rng.pick(&topics)).to_owned();
+            let held = self.actors[0].held.contains_key(&t);
+            if held {
+                self.unsubscribe(0, &[t], true);
+            } else {
+                let q = self.rng.below(3) as u8;
+                self.subscribe(0, &[(t.clone(), q)], true);
+                self.step(Step::Turn);
+                // a live message on it as well (second use of the alias: topic left out)
+                self.publish(1, &t, (round % 2) as u8, false, false, None, true);
+            }
+            self.step(Step::Turn);
+            self.drain(0);
+            self.flush_acks(0, usize::MAX);
+            self.drain(1);
+            self.flush_acks(1, usize::MAX);
+            self.step(Step::Turn);
+        }
+    }
+
     /// Run a whole random history
     pub fn run_random(&mut self) {
         crate::watch::set_history(self.replay_json());
